@@ -441,6 +441,14 @@ func c18PlusTls(w *World, r *Report, tlsTypes map[string]bool) {
 		okp := true
 		// the scheme handling may live in helpers of Startup/Connect (same static cone)
 		for _, f := range staticCone(fn, 2) {
+			// flag = <the +tls test>: the flag equals the test for every outcome, whatever is branched on later
+			allInstrs(f, func(in ssa.Instruction) {
+				if st, ok := in.(*ssa.Store); ok && isTlsTest(st.Val) {
+					if bt, ok := st.Val.Type().Underlying().(*types.Basic); ok && bt.Kind() == types.Bool {
+						found = true
+					}
+				}
+			})
 			hasErr := false
 			if res := f.Signature.Results(); res.Len() > 0 {
 				hasErr = types.Identical(res.At(res.Len()-1).Type(), types.Universe.Lookup("error").Type())
